@@ -21,3 +21,6 @@ pub fn ext_client(_cfg: &ExtCfg) -> ExtClient {
 pub fn ext_client() -> ExtClient {
     ExtClient { with_cfg: false }
 }
+
+// Part of the crate's API lives in a file that is not a `.rs` file: the documentation cache must notice when it changes.
+include!("api.in");
